@@ -1,6 +1,6 @@
 (** * FreeListOpenDhpRules: [dsafe] rules (LV.Proofs.DhpLangProofs) for the free-list programs of LV.Model.Dhp
       ([fl_put], [fl_get], allocator events) over the open-world invariant of ONE instance [f], and the frame
-      rule for everything else (including the programs of the OTHER instance).  README at the end. *)
+      rule for everything else (including the programs of the OTHER instance).  README: at the end of LV.Proofs.FreeListOpenDhpThm. *)
 From Coq Require Import ZArith NArith List String Bool Lia PeanoNat.
 From LV Require Import Base.Conc Base.Events Model.FreeList Model.DhpLang Model.Dhp Proofs.DhpBase Proofs.DhpHist
   Proofs.DhpLangProofs Proofs.FreeListBase Proofs.FreeListInv Proofs.FreeListSteps Proofs.FreeListOpen
@@ -37,7 +37,6 @@ Section DRules.
 
   Lemma HN : (Z.of_nat (S NR) + 1 < FLAG)%Z.
   Proof. lia. Qed.
-  Local Hint Resolve HN : core.
 
   Notation mrunf := (mrun (clsf f) mzero).
   Notation OJf := (OJ NR Dhp.G (projf f)).
@@ -195,7 +194,7 @@ Section DRules.
         pose proof (S_ph HS t) as Hx. rewrite Hp in Hx. cbn in Hx.
         assert (Hnn : st a (S n) <> Nil) by (rewrite Hx; discriminate).
         split; [apply algo_next_st; exact Hnn|]. cbn [a_st_flnext fst snd].
-        eapply O_st_next; eauto. { eapply active_lt_real; eauto; discriminate. } apply proj_set_next. eapply node_exists; eauto. }
+        eapply (O_st_next NR HN); [exact HJ|eapply active_lt_real; [exact HJ|exact Hp|discriminate]|exact Hp|]. apply proj_set_next. eapply node_exists; [exact HJ|exact He|exact Hnn]. }
       intros g a Hp. rewrite ph_set_same. cbn [a_st_flnext fst snd].
       unfold xbind at 1. cbn [act dbind].
       (* m_freeListRefs.store( 1 ) *)
@@ -206,7 +205,7 @@ Section DRules.
         pose proof (S_ph HS t) as Hx. rewrite Hp0 in Hx. cbn in Hx. destruct Hx as [Hx _].
         assert (Hnn : st a0 (S n) <> Nil) by (rewrite Hx; discriminate).
         split; [apply algo_refs|]. cbn [a_st_refs fst snd].
-        eapply O_st_refs; eauto. { eapply active_lt_real; eauto; discriminate. } apply (proj_set_refs g0 f n 1%N). eapply node_exists; eauto. }
+        eapply (O_st_refs NR HN); [exact HJ|eapply active_lt_real; [exact HJ|exact Hp0|discriminate]|exact Hp0|]. apply (proj_set_refs g0 f n 1%N). eapply node_exists; [exact HJ|exact He|exact Hnn]. }
       intros g0 a0 Hp0. rewrite ph_set_same. cbn [a_st_refs fst snd].
       unfold xbind at 1. cbn [act dbind].
       (* m_Head.compare_exchange_strong( head, pNode ) *)
@@ -217,9 +216,9 @@ Section DRules.
       { intros g1 a1 t' Hne. destruct (oeqb (fl_head g1 f) head); [cbn; apply upd_other; exact Hne|apply ph_set_other; exact Hne]. }
       { intros g1 a1 m Hp1 HJ He. unfold a_cas_head. destruct (oeqb (fl_head g1 f) head) eqn:E; cbn [fst snd].
         - split; [apply algo_head|]. apply oeqb_eq in E.
-          eapply O_cas_head_add_ok; eauto. { eapply active_lt_real; eauto; discriminate. } { cbn. rewrite E. reflexivity. }
+          eapply (O_cas_head_add_ok NR HN); [exact HJ|eapply active_lt_real; [exact HJ|exact Hp1|discriminate]|exact Hp1|cbn; rewrite E; reflexivity|].
           apply (proj_set_head g1 f (Some n)).
-        - split; [apply algo_head|]. eapply O_cas_head_add_fail; eauto. eapply active_lt_real; eauto; discriminate. }
+        - split; [apply algo_head|]. eapply (O_cas_head_add_fail NR HN); [exact HJ|eapply active_lt_real; [exact HJ|exact Hp1|discriminate]|exact Hp1]. }
       intros g1 a1 Hp1. unfold a_cas_head. destruct (oeqb (fl_head g1 f) head) eqn:E; cbn [fst snd].
       + cbn [step_aux ph]. rewrite upd_same. cbn. reflexivity.
       + rewrite ph_set_same. unfold xbind at 1. cbn [act dbind].
@@ -232,14 +231,14 @@ Section DRules.
         { intros g2 a2 m Hp2 HJ He. pose proof HJ as ((v0 & Hv & HS) & HC).
           pose proof (S_ph HS t) as Hx. rewrite Hp2 in Hx. cbn in Hx.
           assert (Hnn : st a2 (S n) <> Nil) by (rewrite Hx; discriminate).
-          assert (Hex : n < flen g2 f) by (eapply node_exists; eauto).
+          assert (Hex : n < flen g2 f) by (eapply node_exists; [exact HJ|exact He|exact Hnn]).
           split; [apply algo_refs|]. cbn [a_faa_refs fst snd].
           assert (Hg : Geq (set_refs (projf f g2) (S n) (u32 (refs (projf f g2) (S n) + (FLAG - 1))))
                            (projf f (fl_set_refs g2 f n (w32 (fl_refs g2 f n + (SB - 1)))))).
           { cbn [refs projf]. rewrite <- zn_SBm1, <- zn_faa. apply proj_set_refs. exact Hex. }
           destruct (N.eqb_spec (fl_refs g2 f n) 1) as [E1|E1].
-          - eapply O_add_faa_retry; eauto. { eapply active_lt_real; eauto; discriminate. } cbn [refs projf]. rewrite E1. reflexivity.
-          - eapply O_add_faa_pending; eauto. { eapply active_lt_real; eauto; discriminate. } cbn [refs projf]. lia. }
+          - eapply (O_add_faa_retry NR HN); [exact HJ|eapply active_lt_real; [exact HJ|exact Hp2|discriminate]|exact Hp2| |exact Hg]. cbn [refs projf]. rewrite E1. reflexivity.
+          - eapply (O_add_faa_pending NR HN); [exact HJ|eapply active_lt_real; [exact HJ|exact Hp2|discriminate]|exact Hp2| |exact Hg]. cbn [refs projf]. lia. }
         intros g2 a2 Hp2. cbn [a_faa_refs fst snd]. destruct (N.eqb (fl_refs g2 f n) 1).
         * rewrite ph_set_same. apply IH.
         * rewrite ph_set_same. cbn. reflexivity.
@@ -268,14 +267,14 @@ Section DRules.
     { intros g a m Hp HJ He. pose proof HJ as ((v0 & Hv & HS) & HC).
       pose proof (S_ph HS t) as Hx. rewrite Hp in Hx. cbn in Hx. destruct Hx as [Hx _].
       assert (Hnn : st a (S n) <> Nil) by (rewrite Hx; discriminate).
-      assert (Hex : n < flen g f) by (eapply node_exists; eauto).
+      assert (Hex : n < flen g f) by (eapply node_exists; [exact HJ|exact He|exact Hnn]).
       split; [apply algo_refs|]. cbn [a_faa_refs fst snd].
       assert (Hg : Geq (set_refs (projf f g) (S n) (u32 (refs (projf f g) (S n) + FLAG)))
                        (projf f (fl_set_refs g f n (w32 (fl_refs g f n + SB))))).
       { cbn [refs projf]. rewrite <- zn_SB, <- zn_faa. apply proj_set_refs. exact Hex. }
       destruct (N.eqb_spec (fl_refs g f n) 0) as [E1|E1].
-      - eapply O_put_add; eauto. { eapply active_lt_real; eauto; discriminate. } cbn [refs projf]. rewrite E1. reflexivity.
-      - eapply O_put_pending; eauto. { eapply active_lt_real; eauto; discriminate. } cbn [refs projf]. lia. }
+      - eapply (O_put_add NR HN); [exact HJ|eapply active_lt_real; [exact HJ|exact Hp|discriminate]|exact Hp| |exact Hg]. cbn [refs projf]. rewrite E1. reflexivity.
+      - eapply (O_put_pending NR HN); [exact HJ|eapply active_lt_real; [exact HJ|exact Hp|discriminate]|exact Hp| |exact Hg]. cbn [refs projf]. lia. }
     intros g a Hp. cbn [a_faa_refs fst snd]. destruct (N.eqb (fl_refs g f n) 0).
     - rewrite ph_set_same. cbn [dbind]. apply d_fl_add.
     - rewrite ph_set_same. cbn. reflexivity.
@@ -318,10 +317,10 @@ Section DRules.
             { rewrite zn_mask in Em. destruct (Z.eqb_spec (Z.of_N r mod FLAG) 0); [discriminate|assumption]. }
             assert (Hr : refs (projf f g) (S h) = Z.of_N r) by (cbn [refs projf]; rewrite E; reflexivity).
             assert (Hnn : st a (S h) <> Nil).
-            { eapply refs_nonzero_notnil; eauto. rewrite Hr. intros E0. rewrite E0 in Hm. apply Hm. reflexivity. }
-            eapply O_cas_refs; eauto. { eapply active_lt_real; eauto; discriminate. }
+            { eapply refs_nonzero_notnil; [exact HJ|]. rewrite Hr. intros E0. rewrite E0 in Hm. apply Hm. reflexivity. }
             pose proof (refs_bound g a m (S h) HJ) as Hb. rewrite Hr in Hb.
-            rewrite <- zn_succ by exact Hb. apply proj_set_refs. eapply node_exists; eauto.
+            eapply (O_cas_refs NR HN); [exact HJ|eapply active_lt_real; [exact HJ|exact Hp|discriminate]|exact Hp|exact Hr|exact Hm|].
+            rewrite <- zn_succ by exact Hb. apply proj_set_refs. eapply node_exists; [exact HJ|exact He|exact Hnn].
           - split; [apply algo_refs|exact HJ]. }
         intros g a Hp. unfold a_cas_refs. destruct (N.eqb (fl_refs g f h) r); cbn [fst snd negb].
         * rewrite ph_set_same. unfold xbind at 1. cbn [act dbind].
@@ -330,7 +329,7 @@ Section DRules.
           { intros g0. reflexivity. }
           { intros g0 a0 t' Hne. apply ph_set_other; exact Hne. }
           { intros g0 a0 m Hp0 HJ He. split; [apply algo_next_ld|]. cbn [a_ld_flnext fst snd].
-            apply (O_ld_next NR Dhp.G (projf f) g0 a0 m t (S h)); auto. eapply active_lt_real; eauto; discriminate. }
+            apply (O_ld_next NR HN Dhp.G (projf f) g0 a0 m t (S h)); [exact HJ|eapply active_lt_real; [exact HJ|exact Hp0|discriminate]|exact Hp0]. }
           intros g0 a0 Hp0. rewrite ph_set_same. cbn [a_ld_flnext fst snd]. set (nx := fl_next g0 f h). clearbody nx. clear g0 a0 Hp0.
           unfold xbind at 1. cbn [act dbind].
           (* m_Head.compare_exchange_strong( head, next ) *)
@@ -341,9 +340,9 @@ Section DRules.
           { intros g1 a1 t' Hne. destruct (oeqb (fl_head g1 f) (Some h)); [cbn; apply upd_other; exact Hne|apply ph_set_other; exact Hne]. }
           { intros g1 a1 m Hp1 HJ He. unfold a_cas_head. destruct (oeqb (fl_head g1 f) (Some h)) eqn:E; cbn [fst snd].
             - split; [apply algo_head|]. apply oeqb_eq in E.
-              eapply O_cas_head_get_ok; eauto. { eapply active_lt_real; eauto; discriminate. } { cbn. rewrite E. reflexivity. }
+              eapply (O_cas_head_get_ok NR HN); [exact HJ|eapply active_lt_real; [exact HJ|exact Hp1|discriminate]|exact Hp1|cbn; rewrite E; reflexivity|discriminate|].
               apply (proj_set_head g1 f nx).
-            - split; [apply algo_head|]. eapply O_cas_head_get_fail; eauto. eapply active_lt_real; eauto; discriminate. }
+            - split; [apply algo_head|]. eapply (O_cas_head_get_fail NR HN); [exact HJ|eapply active_lt_real; [exact HJ|exact Hp1|discriminate]|exact Hp1]. }
           intros g1 a1 Hp1. unfold a_cas_head. destruct (oeqb (fl_head g1 f) (Some h)) eqn:E; cbn [fst snd].
           -- cbn [step_aux ph]. rewrite upd_same. unfold xbind. cbn [act dbind ret].
              (* fetch_sub( 2 ) *)
@@ -354,9 +353,9 @@ Section DRules.
                pose proof (S_ph HS t) as Hx. rewrite Hp2 in Hx. cbn in Hx.
                assert (Hnn : st a2 (S h) <> Nil) by (rewrite Hx; discriminate).
                split; [apply algo_refs|]. cbn [a_fas_refs fst snd].
-               eapply O_fas2; eauto. { eapply active_lt_real; eauto; discriminate. }
+               eapply (O_fas2 NR HN); [exact HJ|eapply active_lt_real; [exact HJ|exact Hp2|discriminate]|exact Hp2|].
                cbn [refs projf]. change 2%Z with (Z.of_N 2). rewrite <- zn_fas by (unfold W32; lia).
-               apply proj_set_refs. eapply node_exists; eauto. }
+               apply proj_set_refs. eapply node_exists; [exact HJ|exact He|exact Hnn]. }
              intros g2 a2 Hp2. rewrite ph_set_same. cbn. reflexivity.
           -- rewrite ph_set_same. unfold xbind at 1. cbn [act dbind].
              (* refs = fetch_sub( 1 ) *)
@@ -366,19 +365,19 @@ Section DRules.
              { intros g2. apply flen_set_refs. }
              { intros g2 a2 t' Hne. destruct (N.eqb (fl_refs g2 f h) (SB + 1)); apply ph_set_other; exact Hne. }
              { intros g2 a2 m Hp2 HJ He. pose proof HJ as ((v0 & Hv & HS) & HC).
-               assert (Hlt : t < NR) by (eapply active_lt_real; eauto; discriminate).
+               assert (Hlt : t < NR) by (eapply active_lt_real; [exact HJ|exact Hp2|discriminate]).
                assert (Hpos : (1 <= cnt (S NR) a2 (S h))%nat).
-               { eapply (ref_cnt_pos (S NR) v0); eauto. rewrite Hp2. unfold has_ref. cbn. apply Nat.eqb_refl. }
+               { eapply (ref_cnt_pos (S NR) v0 (projf f g2) a2 t (S h)); [exact HS|]. rewrite Hp2. unfold has_ref. cbn. apply Nat.eqb_refl. }
                assert (Hnn : st a2 (S h) <> Nil).
                { intros E0. pose proof (S_st HS (S h)) as Ho. unfold st_ok in Ho. rewrite E0 in Ho. lia. }
-               assert (Hex : h < flen g2 f) by (eapply node_exists; eauto).
+               assert (Hex : h < flen g2 f) by (eapply node_exists; [exact HJ|exact He|exact Hnn]).
                split; [apply algo_refs|]. cbn [a_fas_refs fst snd].
                assert (Hg : Geq (set_refs (projf f g2) (S h) (u32 (refs (projf f g2) (S h) - 1)))
                                 (projf f (fl_set_refs g2 f h (w32 (fl_refs g2 f h + W32 - 1))))).
                { cbn [refs projf]. change 1%Z with (Z.of_N 1). rewrite <- zn_fas by (unfold W32; lia). apply proj_set_refs. exact Hex. }
                destruct (N.eqb_spec (fl_refs g2 f h) (SB + 1)) as [E1|E1].
-               - eapply O_fas1_readd; eauto. cbn [refs projf]. rewrite E1. reflexivity.
-               - eapply O_fas1_release; eauto. cbn [refs projf]. rewrite <- zn_SBp1. lia. }
+               - eapply (O_fas1_readd NR HN); [exact HJ|exact Hlt|exact Hp2| |exact Hg]. cbn [refs projf]. rewrite E1. reflexivity.
+               - eapply (O_fas1_release NR HN); [exact HJ|exact Hlt|exact Hp2| |exact Hg]. cbn [refs projf]. rewrite <- zn_SBp1. lia. }
              intros g2 a2 Hp2. cbn [a_fas_refs fst snd]. destruct (N.eqb (fl_refs g2 f h) (SB + 1)).
              ++ rewrite ph_set_same. apply dsafeF_xbind. eapply dsafe_weaken; [|apply d_fl_add].
                 intros [[]|] l Hl; cbn in Hl; [subst l; apply IH|exact I].
@@ -388,4 +387,125 @@ Section DRules.
 
   Theorem d_fl_get sp t fr : dsafeF t (fl_get sp f) (Busy, fr) (QgetD fr).
   Proof. unfold fl_get, xbind. cbn [act dbind]. apply d_ld_head. intros v. apply d_fl_get_loop. Qed.
+
+  (** *** the allocator events of instance [f] *)
+  Lemma fl_eqb_refl x : fl_eqb x x = true.
+  Proof. destruct x; reflexivity. Qed.
+  Lemma cls_free b : clsf f (ev_free f b) = FFree (S b).
+  Proof. unfold clsf. change (ev_free f b) with (EvCli "_free" [fl_z f; zn b]). fold (ev_free f b). rewrite classify_free, fl_eqb_refl. reflexivity. Qed.
+  Lemma cls_alloc b : clsf f (ev_alloc f b) = FAlloc (S b).
+  Proof. unfold clsf. change (ev_alloc f b) with (EvCli "_alloc" [fl_z f; zn b]). fold (ev_alloc f b). rewrite classify_alloc, fl_eqb_refl. reflexivity. Qed.
+  Lemma cls_new b : clsf f (ev_new f b) = FNew (S b).
+  Proof. unfold clsf. change (ev_new f b) with (EvCli "_new" [fl_z f; zn b]). fold (ev_new f b). rewrite classify_new, fl_eqb_refl. reflexivity. Qed.
+
+  Lemma mrun_snoc tr t e : mrunf (tr ++ Conc.tag t [e]) = mstep_ev (mrunf tr) (clsf f e).
+  Proof. rewrite mrun_app. reflexivity. Qed.
+
+  (** RULE: "_free f b" (the client gives block b back; precedes put).  Busy -> PPut *)
+  Theorem d_emit_free {R} t b (k : @dprog Dhp.G ev R) fr Q :
+    dsafeF t k (PPut (S b), fr) Q -> dsafeF t (DEmit [ev_free f b] k) (Busy, fr) Q.
+  Proof.
+    intros Hk. cbn [dsafe]. intros g d tr [H1 H2] Hv. unfold dview in Hv. injection Hv as Hp Hf.
+    exists (mkD (aux_free NR (da d) t (S b)) (dfresh d)). split; [|split].
+    - split; [exact H1|]. intros Hc. pose proof (cbad_prefix _ _ _ _ Hc) as Hc0.
+      destruct (H2 Hc0) as (HJ & Ha & He & Hpd & Hinj).
+      rewrite mrun_snoc, cls_free in *. cbn [mstep_ev] in *.
+      destruct (m_ex (mrunf tr) (S b) && negb (m_fr (mrunf tr) (S b)) && negb (m_pd (mrunf tr) (S b)))%bool eqn:E; [|cbn in Hc; discriminate].
+      apply andb_prop in E. destruct E as [E E3]. apply andb_prop in E. destruct E as [E1 E2]. apply negb_true_iff in E2, E3.
+      assert (Hlt : t < NR) by (eapply active_lt_real; [exact HJ|exact Hp|discriminate]).
+      cbn [m_abad m_ex m_pd da dfresh]. split; [apply (O_free NR HN); auto|]. split; [exact Ha|]. split; [exact He|]. split; assumption.
+    - apply dframe. intros t' Hne. cbn. apply upd_other; exact Hne.
+    - unfold dview. cbn [da dfresh aux_free ph]. rewrite upd_same, Hf. exact Hk.
+  Qed.
+
+  (** RULE: "_alloc f b" (the client takes over the block get() returned).  PRet -> Busy *)
+  Theorem d_emit_alloc {R} t b (k : @dprog Dhp.G ev R) fr Q :
+    dsafeF t k (Busy, fr) Q -> dsafeF t (DEmit [ev_alloc f b] k) (PRet (S b), fr) Q.
+  Proof.
+    intros Hk. cbn [dsafe]. intros g d tr [H1 H2] Hv. unfold dview in Hv. injection Hv as Hp Hf.
+    exists (mkD (aux_alloc NR (da d) t (S b)) (dfresh d)). split; [|split].
+    - split; [exact H1|]. intros Hc. pose proof (cbad_prefix _ _ _ _ Hc) as Hc0.
+      destruct (H2 Hc0) as (HJ & Ha & He & Hpd & Hinj).
+      assert (Hlt : t < NR) by (eapply active_lt_real; [exact HJ|exact Hp|discriminate]).
+      destruct (O_alloc NR HN Dhp.G (projf f) g (da d) _ t (S b) HJ Hlt Hp) as [Hfr HJ'].
+      rewrite mrun_snoc, cls_alloc. cbn [mstep_ev]. rewrite Hfr.
+      cbn [m_abad m_ex m_pd da dfresh]. split; [exact HJ'|]. split; [exact Ha|]. split; [exact He|]. split; assumption.
+    - apply dframe. intros t' Hne. cbn. apply upd_other; exact Hne.
+    - unfold dview. cbn [da dfresh aux_alloc ph]. rewrite upd_same, Hf. exact Hk.
+  Qed.
+
+  (** RULE: creation of a block (non-atomic code [fn] that appends a default block and returns its index) *)
+  Theorem d_loc_fresh {R} t (fn : Dhp.G -> Dhp.G * nat) (k : nat -> @dprog Dhp.G ev R) p fr Q :
+    (forall g, quietG g (fst (fn g)) /\ snd (fn g) < flen (fst (fn g)) f) ->
+    (forall nb, dsafeF t (k nb) (p, Some (nb, false)) Q) ->
+    dsafeF t (DLoc fn k) (p, fr) Q.
+  Proof.
+    intros Hfn Hk. cbn [dsafe]. intros g d tr HI Hv. unfold dview in Hv. injection Hv as Hp Hf.
+    destruct (Hfn g) as [Hq Hlt].
+    pose proof (DInv_quiet g (fst (fn g)) d tr t [] HI Hq (fun e (H : In e []) => match H with end)) as K.
+    cbn in K. rewrite app_nil_r in K. destruct K as [K1 K2].
+    exists (mkD (da d) (upd (dfresh d) t (Some (snd (fn g), false)))). split; [|split].
+    - split.
+      + intros t' nb b E. cbn in E. unfold upd in E. destruct (Nat.eqb_spec t' t) as [->|_]; [injection E as <- <-; exact Hlt|eapply K1; eauto].
+      + intros Hc. destruct (K2 Hc) as (HJ & Ha & He & Hpd & Hinj). cbn [da dfresh]. split; [exact HJ|]. split; [exact Ha|]. split; [exact He|]. split.
+        * intros t' nb E. unfold upd in E. destruct (Nat.eqb_spec t' t) as [->|_]; [discriminate|eapply Hpd; eauto].
+        * intros t1 t2 nb E1 E2. unfold upd in E1, E2.
+          destruct (Nat.eqb_spec t1 t) as [->|_]; [discriminate|]. destruct (Nat.eqb_spec t2 t) as [->|_]; [discriminate|]. eapply Hinj; eauto.
+    - intros t' Hne. unfold dview. cbn. rewrite upd_other by exact Hne. reflexivity.
+    - unfold dview. cbn [da dfresh]. rewrite upd_same, Hp. apply Hk.
+  Qed.
+
+  (** RULE: "_new f nb" right after the creation *)
+  Theorem d_emit_new {R} t nb (k : @dprog Dhp.G ev R) p Q :
+    dsafeF t k (p, Some (nb, true)) Q -> dsafeF t (DEmit [ev_new f nb] k) (p, Some (nb, false)) Q.
+  Proof.
+    intros Hk. cbn [dsafe]. intros g d tr [H1 H2] Hv. unfold dview in Hv. injection Hv as Hp Hf.
+    exists (mkD (da d) (upd (dfresh d) t (Some (nb, true)))). split; [|split].
+    - split.
+      + intros t' n b E. cbn in E. unfold upd in E. destruct (Nat.eqb_spec t' t) as [->|_]; [injection E as <- <-; eapply H1; eauto|eapply H1; eauto].
+      + intros Hc. pose proof (cbad_prefix _ _ _ _ Hc) as Hc0. destruct (H2 Hc0) as (HJ & Ha & He & Hpd & Hinj).
+        rewrite mrun_snoc, cls_new in *. cbn [mstep_ev Nat.eqb orb] in *.
+        destruct (m_ex (mrunf tr) (S nb)) eqn:E; [cbn in Hc; discriminate|].
+        cbn [m_abad m_ex m_pd da dfresh]. split; [apply (O_new NR); auto|]. split; [exact Ha|]. split; [|split].
+        * intros n En. unfold bset in En. destruct (Nat.eqb_spec (S n) (S nb)) as [E0|_]; [injection E0 as ->; eapply H1; eauto|apply He; exact En].
+        * intros t' n En. unfold upd in En. unfold bset. destruct (Nat.eqb_spec t' t) as [->|_].
+          -- injection En as <-. now rewrite Nat.eqb_refl.
+          -- destruct (Nat.eqb_spec (S n) (S nb)); [reflexivity|eapply Hpd; eauto].
+        * intros t1 t2 n E1 E2. unfold upd in E1, E2.
+          assert (Hold : forall t', dfresh d t' = Some (n, true) -> n <> nb).
+          { intros t' Et' ->. pose proof (Hpd t' nb Et') as Ep. destruct HJ as (_ & (_ & C2 & _)). rewrite C2, Ep in E. rewrite orb_true_r in E. discriminate. }
+          destruct (Nat.eqb_spec t1 t) as [->|N1]; destruct (Nat.eqb_spec t2 t) as [->|N2]; auto.
+          -- injection E1 as <-. exfalso. eapply Hold; eauto.
+          -- injection E2 as <-. exfalso. eapply Hold; eauto.
+          -- eapply Hinj; eauto.
+    - intros t' Hne. unfold dview. cbn. rewrite upd_other by exact Hne. reflexivity.
+    - unfold dview. cbn [da dfresh]. rewrite upd_same, Hp. exact Hk.
+  Qed.
+
+  (** RULE: the node constructor's store to m_freeListNext of the announced block: the node now exists (out) *)
+  Theorem d_act_init {R} t nb v (k : unit -> @dprog Dhp.G ev R) p Q :
+    p <> Idle ->
+    dsafeF t (k tt) (p, None) Q -> dsafeF t (DAct (a_st_flnext f nb v) k) (p, Some (nb, true)) Q.
+  Proof.
+    intros Hni Hk. cbn [dsafe]. intros g d tr [H1 H2] Hv. unfold dview in Hv. injection Hv as Hp Hf.
+    cbn [a_st_flnext fst snd].
+    exists (mkD (aux_init NR (da d) (S nb)) (upd (dfresh d) t None)). split; [|split].
+    - split.
+      + intros t' n b E. cbn in E. unfold upd in E. rewrite flen_set_next. destruct (Nat.eqb_spec t' t) as [->|_]; [discriminate|eapply H1; eauto].
+      + intros Hc. pose proof (cbad_prefix _ _ _ _ Hc) as Hc0. destruct (H2 Hc0) as (HJ & Ha & He & Hpd & Hinj).
+        pose proof (Hpd t nb Hf) as Ep.
+        assert (Ecls : clsf f (EvAcc KSt (obj_node f nb 1) true) = FInit (S nb)).
+        { destruct f; cbn; unfold zn; rewrite Nat2Z.id; reflexivity. }
+        unfold acc. rewrite mrun_snoc, Ecls. cbn [mstep_ev]. rewrite Ep. cbn [m_abad m_ex m_pd da dfresh].
+        split; [|split; [exact Ha|split; [|split]]].
+        * eapply (O_init NR); [exact HJ|exact Ep|]. apply proj_set_next. eapply H1; eauto.
+        * intros n En. rewrite flen_set_next. apply He; exact En.
+        * intros t' n En. unfold upd in En. destruct (Nat.eqb_spec t' t) as [->|Hne]; [discriminate|].
+          unfold bset. destruct (Nat.eqb_spec (S n) (S nb)) as [E0|_]; [|eapply Hpd; eauto].
+          injection E0 as ->. exfalso. apply Hne. eapply Hinj; eauto.
+        * intros t1 t2 n E1 E2. unfold upd in E1, E2.
+          destruct (Nat.eqb_spec t1 t) as [->|_]; [discriminate|]. destruct (Nat.eqb_spec t2 t) as [->|_]; [discriminate|]. eapply Hinj; eauto.
+    - intros t' Hne. unfold dview. cbn. rewrite upd_other by exact Hne. reflexivity.
+    - unfold dview. cbn [da dfresh aux_init ph]. rewrite upd_same, Hp. exact Hk.
+  Qed.
 End DRules.
